@@ -3,6 +3,7 @@ package main
 import (
 	"go/token"
 	"strings"
+	"sync"
 
 	"golang.org/x/tools/go/ssa"
 )
@@ -93,16 +94,10 @@ func classifyIf(ifi *ssa.If) (kind string, errv ssa.Value, invert bool) {
 
 func pathDecisions(p CPath) []Decision {
 	var out []Decision
-	for k, b := range p.Blocks {
-		if k+1 >= len(p.Blocks) {
-			break
-		}
-		ifi, ok := b.Instrs[len(b.Instrs)-1].(*ssa.If)
-		if !ok {
-			continue
-		}
+	for _, tk := range p.Ifs() {
+		ifi := tk.If
 		kind, errv, inv := classifyIf(ifi)
-		arm := p.Blocks[k+1] == b.Succs[0]
+		arm := tk.Arm
 		if inv {
 			arm = !arm
 		}
@@ -160,6 +155,25 @@ func (c *Ctx) nonNilOnPath(p CPath, ds []Decision, v ssa.Value) bool {
 // the package initialiser, by errors.New or fmt.Errorf, and never written
 // again anywhere in the module.
 func (c *Ctx) sentinelError(g *ssa.Global) bool {
+	sentinelMu.Lock()
+	if v, ok := sentinelCache[g]; ok {
+		sentinelMu.Unlock()
+		return v
+	}
+	sentinelMu.Unlock()
+	v := c.sentinelErrorUncached(g)
+	sentinelMu.Lock()
+	sentinelCache[g] = v
+	sentinelMu.Unlock()
+	return v
+}
+
+var (
+	sentinelMu    sync.Mutex
+	sentinelCache = map[*ssa.Global]bool{}
+)
+
+func (c *Ctx) sentinelErrorUncached(g *ssa.Global) bool {
 	n := 0
 	good := false
 	for _, fn := range c.ModFn {
